@@ -1,0 +1,55 @@
+//go:build verif
+
+// Contracts checked by /verif/govc (comment-only; compiled only with -tags verif).
+package mpcsetup
+
+// shapes established by ReadFrom / Initialize and relied on by Verify ("next is well-formed")
+//@ spec func wfP1(p *Phase1) bool = len(p.parameters.G1.Tau) >= 2 && len(p.parameters.G1.AlphaTau) >= 1 && len(p.parameters.G1.BetaTau) >= 1
+//@ spec func wfP2(p *Phase2) bool = len(p.Sigmas) == len(p.Parameters.G2.Sigma) && len(p.Sigmas) == len(p.Parameters.G1.SigmaCKK)
+
+//@ spec func isHashP1(h []byte, p *Phase1) bool
+//@ spec func isHashP2(h []byte, p *Phase2) bool
+
+//@ contract (*Phase1).hash
+//@   trusted "hash of the serialised contribution (sha256 over WriteTo)"
+//@   assigns
+//@   ensures isHashP1(result, p) && fresh(result)
+//@ contract (*Phase2).hash
+//@   trusted "hash of the serialised contribution (sha256 over WriteTo)"
+//@   assigns
+//@   ensures isHashP2(result, p) && fresh(result)
+
+// Phase1.Verify accepts only a contribution that chains to p, has p's domain size, carries valid
+// update proofs for tau, alpha, beta tied to the stated elements, and passes the same-ratio check.
+//@ contract (*Phase1).Verify
+//@   props C18
+//@   requires p != nil && next != nil && alloc(p) != alloc(next) && wfP1(p) && wfP1(next)
+//@   nopanic
+//@   assigns next.Challenge
+//@   ensures @chain result == nil ==> isHashP1(challenge, p) && (old(len(next.Challenge)) == 0 || bytesEq(old(next.Challenge), challenge))
+//@   ensures @domain-size result == nil ==> len(next.parameters.G2.Tau) == len(p.parameters.G2.Tau)
+//@   ensures @tau result == nil ==> updOK1(next.proofs.Tau, challenge, DST_TAU, iface(&p.parameters.G1.Tau[1]), iface(&next.parameters.G1.Tau[1]))
+//@   ensures @alpha result == nil ==> updOK1(next.proofs.Alpha, challenge, DST_ALPHA, iface(p.parameters.G1.AlphaTau[0]), iface(next.parameters.G1.AlphaTau[0]))
+//@   ensures @beta result == nil ==> updOK1(next.proofs.Beta, challenge, DST_BETA, iface(&p.parameters.G1.BetaTau[0]), iface(&next.parameters.G1.BetaTau[0])) && updOK1(next.proofs.Beta, challenge, DST_BETA, iface(&p.parameters.G2.Beta), iface(&next.parameters.G2.Beta))
+//@   ensures @same-ratio result == nil ==> sameRatio4(iface(next.parameters.G1.Tau), iface(next.parameters.G2.Tau), iface(next.parameters.G1.AlphaTau), iface(next.parameters.G1.BetaTau))
+
+//@ contract (*Phase2).Verify
+//@   props C18
+//@   requires p != nil && next != nil && alloc(p) != alloc(next) && wfP2(p) && wfP2(next)
+//@   nopanic
+//@   assigns next.Challenge
+//@   loop 1 invariant forall k int :: 0 <= k && k < i ==> updOK1(next.Sigmas[k], challenge, (1 + k % 256) % 256, iface(p.Parameters.G1.SigmaCKK[k]), iface(next.Parameters.G1.SigmaCKK[k])) && updOK1(next.Sigmas[k], challenge, (1 + k % 256) % 256, iface(&p.Parameters.G2.Sigma[k]), iface(&next.Parameters.G2.Sigma[k]))
+//@   ensures @chain result == nil ==> isHashP2(challenge, p) && (old(len(next.Challenge)) == 0 || bytesEq(old(next.Challenge), challenge))
+//@   ensures @sizes result == nil ==> len(next.Parameters.G1.Z) == len(p.Parameters.G1.Z) && len(next.Parameters.G1.PKK) == len(p.Parameters.G1.PKK) && len(next.Parameters.G1.SigmaCKK) == len(p.Parameters.G1.SigmaCKK) && len(next.Parameters.G2.Sigma) == len(p.Parameters.G2.Sigma)
+//@   ensures @sigmas result == nil ==> forall k int :: 0 <= k && k < len(p.Sigmas) ==> updOK1(next.Sigmas[k], challenge, (1 + k % 256) % 256, iface(p.Parameters.G1.SigmaCKK[k]), iface(next.Parameters.G1.SigmaCKK[k])) && updOK1(next.Sigmas[k], challenge, (1 + k % 256) % 256, iface(&p.Parameters.G2.Sigma[k]), iface(&next.Parameters.G2.Sigma[k]))
+//@   ensures @delta result == nil ==> updOK1(next.Delta, challenge, DST_DELTA, iface(&p.Parameters.G1.Delta), iface(&next.Parameters.G1.Delta)) && updOK1(next.Delta, challenge, DST_DELTA, iface(&p.Parameters.G2.Delta), iface(&next.Parameters.G2.Delta)) && updOK1(next.Delta, challenge, DST_DELTA, iface(next.Parameters.G1.Z), iface(p.Parameters.G1.Z)) && updOK1(next.Delta, challenge, DST_DELTA, iface(next.Parameters.G1.PKK), iface(p.Parameters.G1.PKK))
+
+// Serialisation layout of the phase-1 parameters: element 0 of the tau vectors (the generators) is
+// never part of the encoding, so a decoded contribution cannot choose it.
+//@ contract (*SrsCommons).refsSlice
+//@   props C18
+//@   requires c != nil && len(c.G2.Tau) >= 1 && len(c.G1.Tau) == 2*len(c.G2.Tau) - 1 && len(c.G1.AlphaTau) == len(c.G2.Tau) && len(c.G1.BetaTau) == len(c.G2.Tau)
+//@   nopanic
+//@   ensures @length len(result) == 5*len(c.G2.Tau) - 1
+//@   ensures @beta result[1] == iface(&c.G2.Beta)
+//@   ensures @g1tau-from-1 forall k int :: 0 <= k && k < len(c.G1.Tau) - 1 ==> result[2 + k] == iface(&c.G1.Tau[1 + k])
